@@ -1105,6 +1105,9 @@ class _Child:
 
     def interrupt(self):
         import signal
+        # a process started in the background of a non-interactive shell inherits SIGINT = ignored and Python then
+        # installs no handler: make the disposition explicit, whatever the check was started from
+        signal.signal(signal.SIGINT, signal.default_int_handler)
         signal.raise_signal(signal.SIGINT)      # a real SIGINT: KeyboardInterrupt is raised here
 
     def applicable(self, act, kind):
